@@ -8,9 +8,11 @@
 (*         the next segment, toe -> table monotone, last -> 65535 (inside a    *)
 (*         segment the code is floor((B + S t) / 2^32) with S >= 0: monotone   *)
 (*         by construction);                                                   *)
-(*  code8 / code16  every code k: it is produced; the FIRST and LAST f32 that  *)
-(*         map to k (found by bisection on the monotone model) satisfy         *)
-(*         |max f(x) - k| < 0.6, decided by integer powers (Transfer.tla);     *)
+(*  code8 / code16  every code k: it is produced; the FIRST f32 that maps to k *)
+(*         (found by bisection on the monotone model) and the one before it,   *)
+(*         the LAST of k - 1, satisfy |max f(x) - code| < 0.6, decided by      *)
+(*         integer powers (Transfer.tla); with the two ends 0 and 1 this is    *)
+(*         both ends of every run, hence (f increasing) every input;           *)
 (*         the decode tables' values encode back to k (that they lie on the    *)
 (*         curve is judged on the decoders' results by TraceLut, and here for  *)
 (*         every 16th code through the model's own action).                    *)
@@ -62,15 +64,13 @@ Code16 == /\ phase = "blk16"
           /\ UNCHANGED vars
 
 -----------------------------------------------------------------------------
-(* the run of code k in the model: first and last pattern, by bisection (sound because the model is monotone -
-   which cls8 / seg16 establish; if it is not, the onto check below fails as well) *)
+(* the boundary below code k in the model: the first pattern whose code is >= k, by bisection (sound because the
+   model is monotone - which cls8 / seg16 establish; if it is not, the checks below fail as well) *)
 RECURSIVE Bis8(_, _, _, _)
 Bis8(en, k, lo, hi) == IF lo >= hi THEN lo
                        ELSE LET m == (lo + hi) \div 2
                             IN IF RawOfClass8(en, m) >= k THEN Bis8(en, k, lo, m) ELSE Bis8(en, k, m + 1, hi)
-FirstClass8(en, k) == Bis8(en, k, 0, NEff8(en))             \* NEff8: no class reaches k
-FirstBits8(en, k) == IF k = 0 THEN 0 ELSE ClassFirst8(en, FirstClass8(en, k))
-LastBits8(en, k) == IF k = 255 THEN INF ELSE ClassFirst8(en, FirstClass8(en, k + 1)) - 1
+FirstBits8(en, k) == ClassFirst8(en, Bis8(en, k, 0, NEff8(en)))
 
 E16(en, b) == IF b < Min16(en) THEN Toe16(en, b)
               ELSE LET r == RawAt16(en, b) IN IF FitsNat(r) THEN ToNat(r) ELSE 1073741824
@@ -79,18 +79,19 @@ Bis16(en, k, lo, hi) == IF lo >= hi THEN lo
                         ELSE LET m == lo + (hi - lo) \div 2
                              IN IF E16(en, m) >= k THEN Bis16(en, k, lo, m) ELSE Bis16(en, k, m + 1, hi)
 Top16(en) == Min2(MaxBits, Min16(en) + 65536 * Len16(en) - 1)
-(* smallest pattern whose code is >= k; the decode table gives a bracket when it is consistent *)
+(* the decode table gives a bracket when it is consistent *)
 FirstBits16(en, k) ==
-  IF k = 0 THEN 0
-  ELSE LET a == D16[en].dec32[k]  b == D16[en].dec32[k + 1]        \* decoded k-1 and k (1-based tuples)
-       IN IF a < b /\ b <= Top16(en) /\ E16(en, a) < k /\ E16(en, b) >= k THEN Bis16(en, k, a + 1, b)
-          ELSE Bis16(en, k, 0, Top16(en) + 1)
-LastBits16(en, k) == IF k = 65535 THEN INF ELSE FirstBits16(en, k + 1) - 1
+  LET a == D16[en].dec32[k]  b == D16[en].dec32[k + 1]             \* decoded k-1 and k (1-based tuples)
+  IN IF a < b /\ b <= Top16(en) /\ E16(en, a) < k /\ E16(en, b) >= k THEN Bis16(en, k, a + 1, b)
+     ELSE Bis16(en, k, 0, Top16(en) + 1)
 
 -----------------------------------------------------------------------------
 (* judgements *)
 J(ok, k, why) == IF ok THEN TRUE ELSE PrintT(<<"MCFAIL", enc, phase, k, why>>)
 Note(ok, k, what) == IF ok THEN TRUE ELSE PrintT(<<"NOTE", enc, phase, k, what>>)
+
+(* both ends of the code range: 0 -> 0 and 1.0 -> max are within 0.6 *)
+EndsFaithful(max) == Within06(enc, max, 0, DyZero) /\ Within06(enc, max, max, DyFromInt(1))
 
 InvHdr8 ==
   phase = "hdr8" =>
@@ -99,6 +100,9 @@ InvHdr8 ==
               /\ Len(C.u8[enc].dec64) = 256, "malformed dump")
     /\ J(Index8(enc, MaxBits) < Len8(enc), Index8(enc, MaxBits), "index-out-of-range")         \* the get_unchecked obligation
     /\ J(\A i \in 1..Len8(enc) : C.u8[enc].hi[i] \in 0..65535 /\ C.u8[enc].lo[i] \in 0..65535, 0, "entry-halves")
+    /\ J(Encode8(enc, 0, 0) = 0 /\ Encode8(enc, 1, OneBits) = 0 /\ Encode8(enc, 0, INF + 1) = 0 /\ Encode8(enc, 1, INF) = 0, 0, "zero-not-0")
+    /\ J(Encode8(enc, 0, OneBits) = 255 /\ Encode8(enc, 0, INF) = 255, 255, "one-not-255")
+    /\ J(EndsFaithful(255), 255, "fidelity")
 
 InvCls8 ==
   phase = "cls8" =>
@@ -110,24 +114,25 @@ InvCls8 ==
     /\ (c = NClasses8(enc) - 1) => J(r = 255, c, "last-class-not-255")
     /\ J(Encode8(enc, 0, ClassFirst8(enc, c)) = Encode8(enc, 0, ClassFirst8(enc, c) + 4095), c, "class-not-uniform")
 
-(* the checks common to both widths for code k whose run in the model is [fb, lb] *)
-CodeChecks(k, max, fb, lb, d32, j64, d64r) ==
-  LET xf == F32Val(fb)
-      xl == F32Val(IF lb >= OneBits THEN OneBits ELSE lb)             \* everything >= 1 is clamped: judge at 1.0
-      r64 == RoundF32Bits(Dy(j64))
-      vs == RunVerdicts(enc, max, k, xf, xl)
-  IN /\ J(fb <= lb /\ Encode(enc, 0, fb) = k /\ Encode(enc, 0, lb) = k, k, "code-not-produced")
-     /\ J(RunWithin06(vs), k, "fidelity")
+(* the checks common to both widths for code k >= 1 whose first pattern in the model is b; code 0 only re-encodes.
+   (Values are bound by quantification over singleton sets rather than LET: see Transfer.tla!GCmp.) *)
+BoundaryChecks(k, max, b) ==
+  \A vs \in {BoundaryVerdicts(enc, max, k, F32Val(b - 1), F32Val(b))} :
+     /\ J(b <= MaxBits /\ Encode(enc, 0, b) = k /\ Encode(enc, 0, b - 1) = k - 1, k, "code-not-produced")
+     /\ J(\E v \in vs : v[1] # {1}, k, "fidelity-first")                       \* max f(first of k) > k - 0.6
+     /\ J(\E v \in vs : v[1] # {1} /\ v[2] # {-1}, k - 1, "fidelity-last")     \* max f(last of k-1) < k - 1 + 0.6
      /\ Note(~RunUndecided(vs), k, "fidelity undecided")
+     /\ Emit => PrintT(<<"REPLAY", ToJson(<<enc, k, b>>)>>)
+ReencodeChecks(k, d32, j64, d64r) ==
+  \A r64 \in {RoundF32Bits(Dy(j64))} :
      /\ J(Encode(enc, 0, d32) = k, k, "dec32-reencode")
      /\ Assert(r64 = d64r, <<"RoundF32Bits disagrees with `as f32`", enc, k, r64, d64r>>)
      /\ J(Encode(enc, 0, r64) = k, k, "dec64-reencode")
-     /\ (fb <= lb) => J(RunOK(enc, IF k = 0 THEN <<1, INF>> ELSE <<0, fb>>, <<0, lb>>, k), k, "run-not-maximal")
-     /\ (Emit /\ fb <= lb) => PrintT(<<"REPLAY", ToJson(<<enc, k, fb, lb>>)>>)
 
 InvCode8 ==
   phase = "code8" =>
-    CodeChecks(c, 255, FirstBits8(enc, c), LastBits8(enc, c), C.u8[enc].dec32[c + 1], C.u8[enc].dec64[c + 1], C.u8[enc].dec64r[c + 1])
+    /\ (c > 0) => \A b \in {FirstBits8(enc, c)} : BoundaryChecks(c, 255, b)
+    /\ ReencodeChecks(c, C.u8[enc].dec32[c + 1], C.u8[enc].dec64[c + 1], C.u8[enc].dec64r[c + 1])
 
 InvHdr16 ==
   phase = "hdr16" =>
@@ -135,9 +140,12 @@ InvHdr16 ==
     /\ Assert(Len(C.u16[enc].scale) = Len16(enc) /\ C.u16[enc].len = Len16(enc) /\ Len(D16[enc].dec64) = 65536
               /\ Len(D16[enc].dec32) = 65536, "malformed dump")
     /\ J(Index16(enc, MaxBits) < Len16(enc), Index16(enc, MaxBits), "index-out-of-range")
-    /\ J(Encode16(enc, 0, 0) = 0 /\ Encode16(enc, 0, 1) = 0 /\ Encode16(enc, 1, OneBits) = 0, 0, "zero-not-0")
+    /\ J(Encode16(enc, 0, 0) = 0 /\ Encode16(enc, 0, 1) = 0 /\ Encode16(enc, 1, OneBits) = 0 /\ Encode16(enc, 0, INF + 1) = 0
+         /\ Encode16(enc, 1, INF) = 0, 0, "zero-not-0")
+    /\ J(Encode16(enc, 0, OneBits) = 65535 /\ Encode16(enc, 0, INF) = 65535, 65535, "one-not-65535")
     /\ J(Toe16(enc, Min16(enc) - 1) <= E16(enc, Min16(enc)), 0, "toe-to-table-not-monotone")
     /\ J(Toe16(enc, Min16(enc) - 1) >= Toe16(enc, Min16(enc) - 2) /\ Toe16(enc, TwoTo23) >= Toe16(enc, TwoTo23 - 1), 0, "toe-not-monotone")
+    /\ J(EndsFaithful(65535), 65535, "fidelity")
 
 InvSeg16 ==
   phase = "seg16" =>
@@ -149,19 +157,19 @@ InvSeg16 ==
 
 InvCode16 ==
   phase = "code16" =>
-    CodeChecks(c, 65535, FirstBits16(enc, c), LastBits16(enc, c), D16[enc].dec32[c + 1], D16[enc].dec64[c + 1], D16[enc].dec32[c + 1])
+    /\ (c > 0) => \A b \in {FirstBits16(enc, c)} : BoundaryChecks(c, 65535, b)
+    /\ ReencodeChecks(c, D16[enc].dec32[c + 1], D16[enc].dec64[c + 1], D16[enc].dec32[c + 1])
 
 -----------------------------------------------------------------------------
-(* one step per remaining public operation from every code, so that every action of Lut.tla is exercised
-   (vacuity control through -coverage) *)
+(* one step per remaining public operation from every 16th code, so that every action of Lut.tla is exercised
+   (vacuity control through -coverage) and the relations are seen to accept the dumped decode tables *)
 DecJ == IF enc \in Encs8 THEN C.u8[enc].dec64[c + 1] ELSE D16[enc].dec64[c + 1]
 Dec32 == IF enc \in Encs8 THEN C.u8[enc].dec32[c + 1] ELSE D16[enc].dec32[c + 1]
 InCode == phase \in {"code8", "code16"} /\ c % 16 = 0
-McDec32 == InCode /\ IntoLinearInt(enc, "f32", c, F32Val(Dec32), c) /\ Goto("done", c)
-McDec64 == InCode /\ IntoLinearInt(enc, "f64", c, Dy(DecJ), c) /\ Goto("done", c)
+McDec == InCode /\ IntoLinearInt(enc, c, F32Val(Dec32), Dy(DecJ), c, c) /\ Goto("done", c)
 McF64 == InCode /\ FromLinearIntF64(enc, DecJ, EncodeF64(enc, DecJ)) /\ Goto("done", c)
-McRun == /\ phase = "code8" /\ c \in 1..254
-         /\ FromLinearRun(enc, <<0, FirstBits8(enc, c)>>, <<0, LastBits8(enc, c)>>, c) /\ Goto("done", c)
+McRun == /\ phase = "code8" /\ c \in 1..254 /\ c % 16 = 0
+         /\ FromLinearRun(enc, <<0, FirstBits8(enc, c)>>, <<0, FirstBits8(enc, c + 1) - 1>>, c) /\ Goto("done", c)
 
 (* a walk along a curve with exact dyadic points: y^13 = x^5 for (0,0), (2^-26, 2^-10), (2^-13, 2^-5), (1, 1) *)
 WalkPts == << <<DyZero, DyZero>>, <<DyPow2(-26), DyPow2(-10)>>, <<DyPow2(-13), DyPow2(-5)>>, <<DyFromInt(1), DyFromInt(1)>> >>
@@ -171,7 +179,7 @@ McWalk == /\ phase = "walk" /\ c < 5
           /\ Goto("walk", c + 1)
 McForm == phase = "walk" /\ c = 5 /\ Form(<<1, 2>>, <<1, 2>>) /\ Goto("done", 0)
 
-MCNext == Cls8 \/ Code8 \/ Seg16 \/ Code16 \/ McDec32 \/ McDec64 \/ McF64 \/ McRun \/ McWalk \/ McForm
+MCNext == Cls8 \/ Code8 \/ Seg16 \/ Code16 \/ McDec \/ McF64 \/ McRun \/ McWalk \/ McForm
 MCSpec == MCInit /\ [][MCNext]_mcvars
 
 Inv == TypeOK /\ InvHdr8 /\ InvCls8 /\ InvCode8 /\ InvHdr16 /\ InvSeg16 /\ InvCode16
